@@ -117,11 +117,16 @@ func (m *vMonC07) AfterTx(h *vHist, o *vTxObs) {
 						m.res.Count("checktx_or_simulate_panicked", 1)
 					}
 				}()
+				// (the simulation first: after CheckTx the check state expects the
+				// next sequence number and the ante handler would stop a simulation
+				// of the same tx before any message handler runs)
+				if _, _, err := c.app.Simulate(o.TxBytes); err == nil {
+					m.res.Count("simulations_that_ran_the_handlers", 1)
+				}
 				c.app.CheckTx(abci.RequestCheckTx{Tx: o.TxBytes, Type: abci.CheckTxType_New})
 				if m.prevTx != nil {
 					c.app.CheckTx(abci.RequestCheckTx{Tx: m.prevTx, Type: abci.CheckTxType_Recheck})
 				}
-				_, _, _ = c.app.Simulate(o.TxBytes)
 				m.res.Count("checktx_and_simulate_before_deliver", 1)
 			}()
 		}
@@ -225,6 +230,7 @@ func TestVerif_C07(t *testing.T) {
 	res.Floor("attestation_delete", 5)
 	res.Floor("histories_compared", 10)
 	res.Floor("replica_restarts", 20)
+	res.Floor("simulations_that_ran_the_handlers", 100)
 	if vs.Stage() == "proc3" {
 		// the third process runs with its wall clock shifted (stdlib time
 		// overlaid by the driver); make sure the shift is in force
